@@ -84,11 +84,39 @@ def evaluate(case):
     kind, subtype, els = case['kind'], case['subtype'], case['elements']
     B = ['C15', kind]
     fails = []
-    arr = lib(B + ['construct'], model.reback, kind, els, subtype, case.get('reback', 'plain'))
+    k = case.get('scale_exp', 0)
+    f = 2.0 ** -k
+
+    def scaled(el):
+        if not el or not k:
+            return el
+        polys = [el] if kind == 'polygon' else el
+        o = [[[v * f for v in r] for r in poly] for poly in polys]
+        return o[0] if kind == 'polygon' else o
+    arr_u = lib(B + ['construct'], model.reback, kind, els, subtype, case.get('reback', 'plain'))
+    # a power-of-two scaling is exact: the scaled array is the same shapes, only tiny (areas far below any absolute tolerance)
+    arr = lib(B + ['construct'], model.reback, kind, [scaled(e) for e in els], subtype, case.get('reback', 'plain')) if k else arr_u
     sl = case.get('slice')
     if sl is not None:
         arr = arr[sl[0]:sl[1]]
+        arr_u = arr_u[sl[0]:sl[1]]
+    hist = case.get('history')
+    if hist and len(arr):
+        # a history: the front part of the array has been oriented already and is joined with a part that has not
+        c = hist['cut'] % (len(arr) + 1)
+        if hist['how'] == 'series':
+            import pandas as pd
+            import spatialpandas as sp
+            mk = lambda a: lib(B + ['concat-after-oriented'], lambda: pd.concat(  # noqa: E731
+                [sp.GeoSeries(lib(B + ['oriented'], a[:c].oriented)), sp.GeoSeries(a[c:])], ignore_index=True).array)
+        elif hist['how'] == 'array-tail':
+            mk = lambda a: lib(B + ['concat-after-oriented'], type(a)._concat_same_type, [a[:c], lib(B + ['oriented'], a[c:].oriented)])  # noqa: E731
+        else:
+            mk = lambda a: lib(B + ['concat-after-oriented'], type(a)._concat_same_type, [lib(B + ['oriented'], a[:c].oriented), a[c:]])  # noqa: E731
+        arr = mk(arr)
+        arr_u = mk(arr_u) if k else arr
     before = model.to_canonical(arr)
+    before_u = model.to_canonical(arr_u) if k else before
     n = len(before)
     out = lib(B + ['oriented'], arr.oriented)
     after_in = model.to_canonical(arr)
@@ -129,7 +157,7 @@ def evaluate(case):
             fails.append((B + ['not-idempotent'], f'in={before} once={got} twice={twice}'))
     # valid inputs: intersections and |area| unchanged, area >= 0
     labels = [kind, subtype, 'reback:' + case.get('reback', 'plain')]
-    valid_idx = [i for i, e in enumerate(before) if e is not None and model.has_leaf(e) and _valid_el(kind, e)]
+    valid_idx = [i for i, e in enumerate(before_u) if e is not None and model.has_leaf(e) and _valid_el(kind, e)]
     if valid_idx and not fails:
         labels.append('valid-elements')
         ar_in = np.asarray(arr.area)
@@ -137,16 +165,17 @@ def evaluate(case):
         for i in valid_idx:
             # magnitude is unchanged when the signed sum already is +-(sum |shell| - sum |holes|): holes oppose their
             # shell and all shells of a multipolygon run the same way (otherwise parts cancel in the input)
-            uniform = _holes_oppose(kind, before[i]) and len({og.area2(og.IL(p[0])) > 0 for p in _polys(kind, before[i])}) == 1
+            uniform = _holes_oppose(kind, before_u[i]) and len({og.area2(og.IL(p[0])) > 0 for p in _polys(kind, before_u[i])}) == 1
             if ar_out[i] < 0 or (uniform and abs(ar_out[i]) != abs(ar_in[i])):
                 fails.append((B + ['area'], f'i={i} el={before[i]} area {ar_in[i]} -> {ar_out[i]}'))
             exp = sum(abs(model.ring_area2(p[0])) - sum(abs(model.ring_area2(h)) for h in p[1:]) for p in _polys(kind, before[i])) / 2
             if ar_out[i] != exp:
                 fails.append((B + ['area', 'not-shell-minus-holes'], f'i={i} el={before[i]} oriented area={ar_out[i]} expected={exp}'))
-        opp = [i for i in valid_idx if _holes_oppose(kind, before[i])]
+        opp = [i for i in valid_idx if _holes_oppose(kind, before_u[i])]
         if opp:
             labels.append('intersection-invariance')
             for box in case.get('boxes', []):
+                box = [v * f for v in box]
                 r0 = np.asarray(arr.intersects_bounds(tuple(box)))
                 r1 = np.asarray(lib(B + ['intersects_bounds'], out.intersects_bounds, tuple(box)))
                 for i in opp:
@@ -155,7 +184,7 @@ def evaluate(case):
             g = case.get('grid')
             if g:
                 from .c02 import grid_points
-                pts = grid_points(g)
+                pts = [[x * f, y * f] for x, y in grid_points(g)]
                 parr = model.build_array('point', pts, 'float64')
                 for i in opp[:2]:
                     s0, s1 = arr[i], out[i]
@@ -168,6 +197,10 @@ def evaluate(case):
         labels.append('has-missing')
     if sl is not None:
         labels.append('sliced')
+    if k:
+        labels.append('tiny(2^-%d)' % (10 * (k // 10)))
+    if hist:
+        labels.append('history:' + hist['how'])
     if flipped:
         labels.append('flipped')
     labels.extend(case.get('labels', []))
@@ -234,8 +267,14 @@ def _case(draw):
     if n and draw(st.booleans()):
         a = draw(st.integers(0, n))
         sl = [a, draw(st.integers(a, n))]
-    return {'kind': kind, 'subtype': subtype, 'elements': els, 'reback': draw(st.sampled_from(model.REBACKINGS)),
+    case = {'kind': kind, 'subtype': subtype, 'elements': els, 'reback': draw(st.sampled_from(model.REBACKINGS)),
             'slice': sl, 'boxes': boxes, 'grid': grid}
+    mags = [abs(v) for e in els if e for v in model.flat_coords(kind, e) if v != 0]
+    if subtype == 'float64' and all(2.0 ** -8 <= m <= 2.0 ** 30 for m in mags) and draw(st.integers(0, 3)) == 0:
+        case['scale_exp'] = draw(st.integers(1, 45))
+    if n and draw(st.integers(0, 2)) == 0:
+        case['history'] = {'how': draw(st.sampled_from(['array', 'array-tail', 'series'])), 'cut': draw(st.integers(0, 8))}
+    return case
 
 
 def strategy(tier):
